@@ -33,6 +33,7 @@ func propC14(c *Ctx) propInfo {
 	c.walletBodyLiterals()
 	c.walletBodyLayouts()
 	c.walletLimits()
+	c.walletConstants()
 	c.walletDecodeTables()
 	c.externalEnvelope()
 	c.payloadCodecs()
@@ -745,4 +746,38 @@ var excC14E1 = map[string]excEntry{
 	"(*wallet.walletV1V2).createSignedMsgBodyCell P1 panic _":                     {"unimplemented stub (panic(\"implement me\")): v1/v2 wallets are supported for address derivation only and are outside C14's 'supported versions for sending' (recorded as an observation in DESIGN.md)", nil},
 	"(*wallet.SignedMsgBody).Verify P7 call crypto/ed25519.Verify len(arg0)==32":  {"the key is the API caller's ed25519.PublicKey, not data read from a message; a key of another length is a programming error on the caller's side", nil},
 	"wallet.MessageV5VerifySignature P7 call crypto/ed25519.Verify len(arg0)==32": {"same: caller-supplied ed25519.PublicKey", nil},
+}
+
+// walletConstants (after the mutation battery): two pieces of contract arithmetic written by hand.
+//   - highload v2: query_id = (valid_until << 32) + random32 - the contract takes the expiry from
+//     the upper 32 bits; any other shift makes the message expire at a different time than asked.
+//   - v5r1: the wallet-id context is a 32-bit word laid out as is_client:1 workchain:8 version:8
+//     subwallet:15 (genContextID writes those widths and reads back 32 bits).
+func (c *Ctx) walletConstants() {
+	const R = "E12.limits"
+	if f := c.fn("wallet", "walletHighloadV2.createSignedMsgBodyCell"); f != nil {
+		var shifts []int64
+		allInstrs(f, func(_ *ssa.BasicBlock, in ssa.Instruction) {
+			bo, ok := in.(*ssa.BinOp)
+			if !ok || bo.Op != token.SHL {
+				return
+			}
+			if k, ok := constInt(bo.Y); ok && derivesFrom(bo.X, callResult("time.Time.Unix"), false) {
+				shifts = append(shifts, k)
+			}
+		})
+		c.check(len(shifts) == 1 && shifts[0] == 32, R, "highload query id carries the expiry in its upper 32 bits", f.Pos(), "ValidUntil.Unix() << 32", fmt.Sprintf("the highload query id is built with the expiry shifted by %v bits; the contract reads valid_until from bits 32..63", shifts))
+	}
+	if f := c.fn("wallet", "genContextID"); f != nil {
+		var ws []string
+		for _, cl := range callsTo(f, bocPath+".Cell.WriteUint") {
+			k, _ := constInt(cl.Call.Args[2])
+			ws = append(ws, fmt.Sprint(k))
+		}
+		rd := int64(-1)
+		for _, cl := range callsTo(f, bocPath+".Cell.ReadUint") {
+			rd, _ = constInt(cl.Call.Args[1])
+		}
+		c.check(strings.Join(ws, ",") == "1,8,8,15" && rd == 32, R, "v5r1 wallet-id context = client:1 workchain:8 version:8 subwallet:15, read as 32 bits", f.Pos(), strings.Join(ws, ",")+" -> "+fmt.Sprint(rd), fmt.Sprintf("genContextID writes fields of widths [%s] and reads back %d bits; the v5r1 wallet-id context is [1,8,8,15] = 32 bits - any other layout gives a wallet id, and so an address, that no v5r1 contract computes", strings.Join(ws, ","), rd))
+	}
 }
